@@ -524,8 +524,10 @@ impl<R: Round> Context<R> {
 
         // choose a exponent threshold such that number with exponent smaller than this value
         // will be converted by directly evaluating the power. The threshold here is chosen such
-        // that the power under base 10 will fit in a double word.
-        const THRESHOLD_SMALL_EXP: isize = (Word::BITS as f32 * 0.60206) as isize; // word bits * 2 / log2(10)
+        // that the power under base 10 will fit in 128 bits. The threshold must not depend on the
+        // word size: the two routes round differently, so a word-dependent threshold makes the
+        // result (at least its exactness flag) depend on the build.
+        const THRESHOLD_SMALL_EXP: isize = 38; // 128 / log2(10)
         if repr.exponent.abs() <= THRESHOLD_SMALL_EXP {
             // if the exponent is small enough, directly evaluate the exponent
             if repr.exponent >= 0 {
